@@ -249,4 +249,111 @@ theorem inst_immutable {m : InstMsg} {s : WL} (h : instantiate .immutable m = .o
   simp only [List.length_nil] at this
   omega
 
+/-! ## Paging the `Members` query -/
+
+theorem valid_mapOf {s : WL} (hi : WlInv s) (hk : s.kind ≠ .immutable) (stage : Nat) : AllValid (mapOf s stage) := by
+  have hv := hi.valid hk
+  unfold mapOf
+  split
+  · split
+    · rename_i g hg; exact hv.2 g (List.mem_of_getElem? hg)
+    · intro x hx; simp [keys] at hx
+  · exact hv.1
+
+theorem filter_after_none_of_le (a : Nat) (p : List Member) (h : ∀ x ∈ keys p, x ≤ a) :
+    p.filter (fun m => decide (a < m.1)) = [] := by
+  induction p with
+  | nil => rfl
+  | cons x xs ih =>
+    have hx : x.1 ≤ a := h x.1 (by simp [keys_cons])
+    have : decide (a < x.1) = false := by simp; omega
+    rw [List.filter_cons, this]
+    simp only [Bool.false_eq_true, if_false]
+    exact ih (fun y hy => h y (by rw [keys_cons]; exact List.mem_cons_of_mem _ hy))
+
+theorem filter_after_all_of_gt (a : Nat) (q : List Member) (h : ∀ x ∈ keys q, a < x) :
+    q.filter (fun m => decide (a < m.1)) = q := by
+  induction q with
+  | nil => rfl
+  | cons x xs ih =>
+    have hx : a < x.1 := h x.1 (by simp [keys_cons])
+    have : decide (a < x.1) = true := by simp; omega
+    rw [List.filter_cons, this]
+    simp only [if_true]
+    rw [ih (fun y hy => h y (by rw [keys_cons]; exact List.mem_cons_of_mem _ hy))]
+
+theorem sorted_append {p q : List Member} (h : SortedKeys (p ++ q)) :
+    SortedKeys p ∧ SortedKeys q ∧ ∀ x ∈ keys p, ∀ y ∈ keys q, x < y := by
+  unfold SortedKeys keys at *
+  rw [List.map_append, List.pairwise_append] at h
+  exact h
+
+/-- in a sorted map, the entries after the last key of a prefix are exactly the rest -/
+theorem filter_after_last {p q : List Member} {x : Member} (h : SortedKeys ((p ++ [x]) ++ q)) :
+    ((p ++ [x]) ++ q).filter (fun m => decide (x.1 < m.1)) = q := by
+  obtain ⟨h1, h2, h3⟩ := sorted_append h
+  obtain ⟨h4, _, h6⟩ := sorted_append h1
+  rw [List.filter_append, filter_after_none_of_le x.1 (p ++ [x]), filter_after_all_of_gt x.1 q]
+  · rfl
+  · intro y hy; exact h3 x.1 (by simp [keys]) y hy
+  · intro y hy
+    simp only [keys, List.map_append, List.mem_append, List.map_cons, List.map_nil, List.mem_singleton] at hy
+    rcases hy with hy | hy
+    · exact Nat.le_of_lt (h6 y (by simpa [keys] using hy) x.1 (by simp [keys]))
+    · omega
+
+/-- Paging the `Members` query to exhaustion (any page size ≥ 1, enough fuel) enumerates the stored map, completely
+and in order — provided every stored key passes `addr_validate` (the cursor of the next page is a stored key). -/
+theorem walkPages_complete (s : WL) (stage pg : Nat) (hpg : 1 ≤ pg) (hs : SortedKeys (mapOf s stage))
+    (hv : ∀ x ∈ keys (mapOf s stage), validAddr x = true) :
+    ∀ (fuel : Nat) (p q : List Member), mapOf s stage = p ++ q → q.length < fuel →
+      walkPages s stage pg fuel (p.getLast?.map (·.1)) p = mapOf s stage := by
+  have hlim : 1 ≤ min pg PAGE_MAX := by
+    have : 1 ≤ PAGE_MAX := by decide
+    omega
+  intro fuel
+  induction fuel with
+  | zero => intro p q _ hq; omega
+  | succ fuel ih =>
+    intro p q hpq hq
+    -- the page returned for the cursor = last key of `p`
+    have hpage : queryMembers s stage (p.getLast?.map (·.1)) (some pg) = some (q.take (min pg PAGE_MAX)) := by
+      unfold queryMembers
+      simp only [Option.getD_some]
+      rcases List.eq_nil_or_concat p with hp | ⟨p', x, hp⟩
+      · subst hp; simp only [List.getLast?_nil, Option.map_none]
+        rw [hpq]; rfl
+      · rw [List.concat_eq_append] at hp; subst hp
+        have hx : x.1 ∈ keys (mapOf s stage) := by rw [hpq]; simp [keys]
+        simp only [List.getLast?_append, List.getLast?_singleton, Option.some_or, Option.map_some]
+        rw [hv x.1 hx]; simp only [if_true]
+        rw [hpq, filter_after_last (by rw [← hpq]; exact hs)]
+    rw [walkPages, hpage]
+    cases hq' : q.take (min pg PAGE_MAX) with
+    | nil =>
+      have : q = [] := by
+        cases q with
+        | nil => rfl
+        | cons y ys =>
+          have : (min pg PAGE_MAX) = (min pg PAGE_MAX - 1) + 1 := by omega
+          rw [this, List.take_succ_cons] at hq'; exact absurd hq' (by simp)
+      subst this
+      simp only [List.append_nil] at hpq
+      exact hpq.symm
+    | cons y ys =>
+      simp only []
+      have hne : q.take (min pg PAGE_MAX) ≠ [] := by rw [hq']; simp
+      have hlast : (p ++ (y :: ys)).getLast?.map (·.1) = (y :: ys).getLast?.map (·.1) := by
+        rw [List.getLast?_append]
+        cases hz : (y :: ys).getLast? with
+        | none => exact absurd (List.getLast?_eq_none_iff.mp hz) (by simp)
+        | some z => rfl
+      rw [← hlast]
+      apply ih (p ++ (y :: ys)) (q.drop (min pg PAGE_MAX))
+      · rw [List.append_assoc, ← hq', List.take_append_drop]; exact hpq
+      · have hqne : q ≠ [] := by intro e; rw [e] at hq'; simp at hq'
+        have : 0 < q.length := List.length_pos_iff.mpr hqne
+        rw [List.length_drop]; omega
+
+
 end LP.WlMembers
